@@ -306,29 +306,36 @@ def explore (R : Rules) (top : RName) (fuel : Nat) : Option Nfa :=
 
 /-- one right-hand side.  `stack` has the rule being expanded on top; `ntail` is the number of
 rules on top of the stack, below the current one, whose reference was the last atom of its
-parent's right-hand side.  `<VOID>` does not stop the scan (the rest hangs off an unreachable
+parent's right-hand side (`whole = true`: the repaired test).  `<VOID>` does not stop the scan (the rest hangs off an unreachable
 state); an undefined rule refuses; a rule found on the stack must be referenced from the last
 position along the whole chain back to it. -/
-def okAtoms (T : Table) (recur : Nat → RName → Bool) (stack : List RName) (ntail : Nat) : List Atom → Bool
+def okAtoms (T : Table) (whole : Bool) (recur : Nat → RName → Bool) (stack : List RName) (ntail : Nat) :
+    List Atom → Bool
   | [] => true
   | .ref s :: rest =>
     if !T.defined s then false
     else if stack.contains s then
-      rest.isEmpty && decide (stack.idxOf s ≤ ntail)
+      rest.isEmpty && (!whole || decide (stack.idxOf s ≤ ntail))
     else
-      recur (if rest.isEmpty then ntail + 1 else 0) s && okAtoms T recur stack ntail rest
-  | _ :: rest => okAtoms T recur stack ntail rest
+      recur (if rest.isEmpty then ntail + 1 else 0) s && okAtoms T whole recur stack ntail rest
+  | _ :: rest => okAtoms T whole recur stack ntail rest
 
 /-- `expand_rule` as a decision: every alternative expands -/
-def okRule (T : Table) : Nat → List RName → Nat → RName → Bool
+def okRule (T : Table) (whole : Bool) : Nat → List RName → Nat → RName → Bool
   | 0, _, _, _ => false
   | fuel + 1, stack, ntail, r =>
     (T.rules r).all fun alt =>
-      okAtoms T (fun nt s => okRule T fuel (r :: stack) nt s) (r :: stack) ntail alt
+      okAtoms T whole (fun nt s => okRule T whole fuel (r :: stack) nt s) (r :: stack) ntail alt
 
 /-- the compiler is expected to build an FSG for `top` exactly when this holds -/
 def representable (T : Table) (top : RName) : Bool :=
-  T.defined top && okRule T (T.length + 1) [] 0 top
+  T.defined top && okRule T true (T.length + 1) [] 0 top
+
+/-- the weaker test of the unrepaired `expand_rhs` (only the last hop is tested for tail position);
+used by the check only to name the witness class "non-tail recursion hidden behind a tail
+reference chain" -/
+def representableLastHop (T : Table) (top : RName) : Bool :=
+  T.defined top && okRule T false (T.length + 1) [] 0 top
 
 /-! ## weight normalisation (`expand_rule`, jsgf.c:388-407) -/
 
@@ -347,5 +354,95 @@ def scaleFirst (c : Rat) : List WAtom → List WAtom
 /-- divide the weight of the first atom of every alternative by the sum of these weights
 (by 1 when the sum is 0) -/
 def normaliseRule (rl : Rule) : Rule := { rl with alts := rl.alts.map (scaleFirst (normFactor rl)) }
+
+/-! ## mirror of `expand_rule` / `expand_rhs` (jsgf.c:298-421, repaired): states and links -/
+
+/-- a link of `jsgf->links`: from, label (`none` = null transition), to, weight -/
+structure XLink where
+  src : Nat
+  label : Option Nat
+  dst : Nat
+  wt : Rat
+deriving Repr, Inhabited
+
+/-- scratch state of the FSG conversion: `grammar->nstate`, `grammar->links` (oldest first), and the
+`entry`/`exit` fields of the rules (latest instance first) -/
+structure XSt where
+  nstate : Nat := 0
+  links : List XLink := []
+  inst : List (RName × Nat × Nat) := []
+deriving Repr, Inhabited
+
+def XSt.addLink (st : XSt) (src : Nat) (label : Option Nat) (dst : Nat) (wt : Rat) : XSt :=
+  { st with links := st.links ++ [{ src, label, dst, wt }] }
+
+/-- `rule->entry`, `rule->exit` of the latest instance -/
+def XSt.entryExit (st : XSt) (r : RName) : Nat × Nat :=
+  match st.inst.find? (fun x => x.1 == r) with
+  | some x => x.2
+  | none => (0, 0)
+
+inductive RhsRes
+  | err
+  | recursion
+  | last (n : Nat)
+deriving Repr, Inhabited
+
+/-- `expand_rhs`: walks the atoms from state `last`; `recur nt s st` is `expand_rule` on sub-rule `s` -/
+def xAtoms (T : Table) (recur : Nat → RName → XSt → Option XSt) (stack : List RName) (ntail : Nat) :
+    List WAtom → Nat → XSt → RhsRes × XSt
+  | [], last, st => (.last last, st)
+  | a :: rest, last, st =>
+    match a.atom with
+    | .tok w =>
+      xAtoms T recur stack ntail rest st.nstate
+        { st.addLink last (some w) st.nstate a.wt with nstate := st.nstate + 1 }
+    | .null =>
+      xAtoms T recur stack ntail rest st.nstate
+        { st.addLink last none st.nstate a.wt with nstate := st.nstate + 1 }
+    | .void =>
+      xAtoms T recur stack ntail rest st.nstate { st with nstate := st.nstate + 1 }
+    | .ref s =>
+      if !T.defined s then (.err, st)
+      else if stack.contains s then
+        if rest.isEmpty && decide (stack.idxOf s ≤ ntail) then
+          (.recursion, st.addLink last none (st.entryExit s).1 a.wt)
+        else (.err, st)
+      else
+        match recur (if rest.isEmpty then ntail + 1 else 0) s st with
+        | none => (.err, st)
+        | some st' =>
+          xAtoms T recur stack ntail rest (st'.entryExit s).2 (st'.addLink last none (st'.entryExit s).1 a.wt)
+
+/-- the alternatives of one rule instance (`entry`, `exit` already allocated) -/
+def xAlts (T : Table) (recur : Nat → RName → XSt → Option XSt) (stack : List RName) (ntail : Nat)
+    (entry exit : Nat) : List (List WAtom) → XSt → Option XSt
+  | [], st => some st
+  | alt :: rest, st =>
+    match xAtoms T recur stack ntail alt entry st with
+    | (.err, _) => none
+    | (.recursion, st') => xAlts T recur stack ntail entry exit rest st'
+    | (.last n, st') => xAlts T recur stack ntail entry exit rest (st'.addLink n none exit 1)
+
+/-- `expand_rule`: push, normalise, allocate entry and exit, expand every alternative, pop -/
+def xRule (T : Table) : Nat → List RName → Nat → RName → XSt → Option XSt
+  | 0, _, _, _, _ => none
+  | fuel + 1, stack, ntail, r, st =>
+    match T.find r with
+    | none => none
+    | some rl =>
+      let entry := st.nstate
+      let exit := st.nstate + 1
+      let st1 : XSt := { st with nstate := st.nstate + 2, inst := (r, entry, exit) :: st.inst }
+      xAlts T (fun nt s st' => xRule T fuel (r :: stack) nt s st') (r :: stack) ntail entry exit
+        (normaliseRule rl).alts st1
+
+/-- `jsgf_build_fsg_raw` before the links are handed to `fsg_model`: `none` = refused -/
+def expandTop (T : Table) (top : RName) : Option XSt :=
+  if T.defined top then xRule T (T.length + 1) [] 0 top {} else none
+
+/-- the links as an ε-NFA (start = entry of the top rule = 0, final = its exit = 1) -/
+def XSt.toNfa (st : XSt) : Nfa :=
+  { start := 0, final := 1, arcs := st.links.map fun l => (l.src, l.label, l.dst) }
 
 end SSVerif.Jsgf
